@@ -86,13 +86,17 @@ def cid_rows(spec):
     # data format rows may stand anywhere behind the Format row: "late" puts them behind the fields
     late = props if spec.get("late") else []
     rows += [] if spec.get("late") else props
+    if spec.get("late") and spec.get("allowed") is not None and spec.get("examples"):
+        # an earlier, wider 'Allowed characters' row under which the examples of the fields are validated;
+        # the later row (behind the fields) is the one that counts for the data
+        rows.append(["D", "Allowed characters", "0..."])
     for f in spec["fields"]:
         rule = ""
         if f["type"] == "Choice":
             rule = ", ".join(f["choices"])
         elif f["type"] == "Rec":
             rule = "|".join(f["choices"])
-        rows.append(["F", f["name"], "", "X" if f["empty"] else "", items_text(f["length"]), f["type"], rule])
+        rows.append(["F", f["name"], good_example(spec, f) if spec.get("examples") else "", "X" if f["empty"] else "", items_text(f["length"]), f["type"], rule])
     rows += late
     names = [f["name"] for f in spec["fields"]]
     for i, c in enumerate(spec.get("checks", [])):
@@ -106,6 +110,19 @@ def cid_rows(spec):
         else:
             rows.append(["C", desc, "Rec", c["kind"]])
     return rows
+
+
+def good_example(spec, f):
+    """an example the field accepts whatever characters are allowed ('' = no example)"""
+    pool = list(f["choices"]) if f["choices"] else ["a", "zz", "y{~", "A1b"]
+    for c in pool:
+        n = len(c)
+        if spec["format"] == "fixed":
+            if n <= f["length"][0][0]:
+                return c
+        elif f["length"] is None or any((lo is None or lo <= n) and (hi is None or n <= hi) for lo, hi in f["length"]):
+            return c
+    return ""
 
 
 def build_cid(spec):
@@ -238,11 +255,21 @@ def coq_run_obs(obs):
     return P(L(obs["outs"], coq_out), O(obs["raised"], coq_err), Nat(obs["acc"]), Nat(obs["rej"]))
 
 
-def run_reader(cid, spec, text, mode, limit, decoy_text=None):
+def run_reader(cid, spec, text, mode, limit, decoy_text=None, prepass=False):
     """`with Reader(...) as r: for row in r.rows()` - the body of cutplace.rows() - plus the counters"""
     outs = []
     raised = None
-    reader = validio.Reader(cid, io.StringIO(text, newline=""), on_error=mode, validate_until=limit)
+    stream = io.StringIO(text, newline="")
+    reader = validio.Reader(cid, stream, on_error=mode, validate_until=limit)
+    if prepass:
+        # the same Reader reads its data a first time (rows() starts a new pass each time it is called); the pass
+        # under observation is the second one
+        try:
+            for _ in reader.rows():
+                pass
+        except Exception:  # noqa
+            pass
+        stream.seek(0)
     if decoy_text is not None:
         # another data set read with the same CID between the construction of the reader under test and its use:
         # "decided over the whole data set" means this data set only
@@ -265,6 +292,19 @@ def run_reader(cid, spec, text, mode, limit, decoy_text=None):
         "rej": reader.rejected_rows_count or 0,
     }
     return res
+
+
+def run_rows_fn(cid, spec, text, mode, limit):
+    """the public generator function cutplace.validio.rows() itself"""
+    outs = []
+    raised = None
+    try:
+        for r in validio.rows(cid, io.StringIO(text, newline=""), on_error=mode, validate_until=limit):
+            outs.append(r)
+    except Exception as e:  # noqa
+        raised = e
+    return {"outs": [{"err": canon_error(o, spec)} if isinstance(o, Exception) else {"row": list(o)} for o in outs],
+            "raised": None if raised is None else canon_error(raised, spec)}
 
 
 def run_validate(cid, spec, text, limit):
@@ -304,6 +344,7 @@ def gen_spec(rnd, fmt=None, nfields=None, with_checks=True, rec=False, header=No
     if rnd.random() < 0.3:
         spec["allowed"] = rnd.choice([[[97, 122]], [[32, 32], [97, 98]], [[0, 120]], [[98, None]]])
         spec["late"] = rnd.random() < 0.5
+        spec["examples"] = spec["late"] and not rec and rnd.random() < 0.6
     if fmt == "fixed" and rnd.random() < 0.5:
         spec["line_delimiter"] = rnd.choice(["lf", "cr", "crlf", "any"])
     if with_checks:
